@@ -468,3 +468,35 @@ def run_concur_job(job, scens, run_case, prop, files):
     acc.extra["preemption_bound"] = bound
     acc.extra["line_hit_bound"] = hits
     return acc.result()
+
+
+def long_jobs(curve=None, weight=6, n=1):
+    return [{"name": f"longhist/{i}", "part": "longhist", "idx": i, "curve": curve, "weight": weight} for i in range(n)]
+
+
+def run_long_job(job, ops, run_case):
+    """one long operation sequence (vf/seqexplore.long_history): fills and wraps any bounded cache several times"""
+    from vf import seqexplore
+    acc = Acc(job)
+    n = seqexplore.long_history(acc, ops, run_case, scratch_dir())
+    acc.ob("long_history", n)
+    acc.sample({"long_history_distinct_operations": len(ops), "executed": n})
+    acc.extra["long_history_distinct_operations"] = len(ops)
+    return acc.result()
+
+
+def default_long_ops(seq_ops, job, target=1100):
+    """distinct operations for a long history: the E5 alphabet of the property instantiated with many different content
+    seeds (same shapes, different bytes), duplicates and environment operations removed"""
+    out, seen = [], set()
+    base = seq_ops(dict(job, part="long", shard=[0, 1]))
+    k = max(1, -(-target // max(1, len(base))))
+    for i in range(k):
+        for kind, case in seq_ops(dict(job, part="long", shard=[0, 1], seed=job["seed"] + 1000 * (i + 1))):
+            if kind.startswith("env-") or kind in ("fault", "poke", "bad", "generic"):
+                continue
+            key = json.dumps([kind, case], sort_keys=True, default=str)
+            if key not in seen:
+                seen.add(key)
+                out.append((kind, case))
+    return out
